@@ -583,3 +583,48 @@ Example C01_self_check_ex :
   h_self_check (HS (fun n => if Nat.eqb n 1 then Some 0 else None) (fun n => if Nat.eqb n 0 then [1] else []) (fun _ => true)
                    (fun _ => dummy_i) [1] [] [(DInt 0, [1])] false None false) = false.
 Proof. vm_compute. split; reflexivity. Qed.
+
+(* ====================================================================================== *)
+(* Audit, cross-cutting "step vs step_chk" (and C01 F2).  Every theorem above is about [Machine.step] / [run]; the
+   correspondence evaluates [CaseMut.step_chk] / [run_chk] (Cases/CaseMut.v): the same step behind the guard
+   [op_live] "every tree / node / `before` node the operation mentions is currently live".  The two are connected
+   here, so the theorems formally cover the function the cases run:
+     - live references: the guarded step IS the step;
+     - a stale reference: the answer is the model-level error and the world is unchanged;
+     - a guarded history is the plain history of its live operations, hence every world the correspondence visits
+       is [run ops' empty_world] for some ops', and every step-invariant transfers.
+   What this does NOT cover (F2): calls through stale references (a removed node, a cleared tree's node).  The
+   library does answer some of them (`live.add(removed_node)` succeeds); the model refuses all with EModel and
+   the harness never issues them (mut.py: NotLive).  "Any sequence of public mutating operations" is therefore
+   proved and tested for sequences whose references are live at the time of the call; see manifest["note"] of
+   harness/props/C01.py. *)
+From NT Require Import CaseMutFacts.
+
+Theorem C01_step_chk_live : forall w o, op_live w o = true -> step_chk w o = step w o.
+Proof. exact step_chk_live. Qed.
+Print Assumptions C01_step_chk_live.
+
+Theorem C01_step_chk_stale : forall w o, op_live w o = false -> step_chk w o = (Err EModel, w).
+Proof. exact step_chk_stale. Qed.
+Print Assumptions C01_step_chk_stale.
+
+Theorem C01_run_chk_is_run : forall ops w, exists ops', incl ops' ops /\ run_chk ops w = run ops' w.
+Proof. exact run_chk_reachable. Qed.
+Print Assumptions C01_run_chk_is_run.
+
+Theorem C01_run_chk_invariant : forall P : world -> Prop, (forall w o, P w -> P (snd (step w o))) ->
+  forall ops w, P w -> P (run_chk ops w).
+Proof. exact run_chk_invariant. Qed.
+Print Assumptions C01_run_chk_invariant.
+
+(* the headline invariant, on the function the correspondence runs *)
+Theorem C01_history_chk : forall ops, WFw (run_chk ops empty_world).
+Proof. intros ops. apply (run_chk_invariant WFw); [intros w o H; now apply WFw_step|exact WFw_empty]. Qed.
+Print Assumptions C01_history_chk.
+
+Example C01_step_chk_nonvacuous :
+  let w := run [ONewTree false None; OAdd 0 0 (D 1 1 1 false [1%Z]) None None BNone; ORemove 0 1 false false] empty_world in
+  op_live w (OAdd 0 0 (D 2 2 2 false [2%Z]) None None BNone) = true /\
+  op_live w (OAdd 0 1 (D 2 2 2 false [2%Z]) None None BNone) = false /\
+  step_chk w (OAdd 0 1 (D 2 2 2 false [2%Z]) None None BNone) = (Err EModel, w).
+Proof. vm_compute. repeat split. Qed.
